@@ -92,7 +92,7 @@ def is_single_crossing(instance: OrdinalInstance):
         for order in orders:
             array[int(scores[order] + m**2)].append(order)
         # line 6: XOR on all the elements of B_arr
-        voters_order = [elem[0] for elem in array if elem != []]
+        voters_order = [order for elem in array for order in elem]
 
     # check if the computed order is single-crossing
     if _is_ordered_profile_single_crossing(voters_order):
